@@ -24,6 +24,9 @@ first_miss = {"C05-D": "missed at first: reception was only checked by object id
               "C20-E": "missed at first: the physical-view stand-in used float operands only → integer physical values with integer factors added",
               "C01-G": "missed at first: expedited pieces were contracted for two pieces only → every composition of the size into 2..4 pieces",
               "C15-H": "missed at first: the received frame always carried a later timestamp → a frame with the previous frame's timestamp added",
+              "C08-G": "missed at first: build_variable was contracted for the integer types only → BuildVariableDataType: every data type code CiA 301 defines in 0x01..0x1B keeps its type (TIME_OF_DAY / TIME_DIFFERENCE included) and numeric defaults are read as numbers",
+              "C14-G": "missed at first: same gap as C08-G (the import half of the round trip) → BuildVariableDataType",
+              "C19-G": "undecided at first (the stalled wait loop spun until the unrolling budget under the frozen clock) → `clock_patience`: after 200 clock reads without completion every deadline has expired, the library's own time-out ends the call and the clause fails; the native replay lets the environment repeat its last answer while the real deadline runs out",
               "C17-H": "missed at first: the boot-up transition of the NMT slave was contracted only for its frames → HeartbeatAtBootUp (period of object 0x1017 now, any cached value)"}
 n_det = n_app = 0
 for sid in sorted(R):
@@ -47,7 +50,8 @@ for sid in sorted(R):
 head = ("Round 1 (`-A`, `-B`, written against the pinned commit), round 2 (`-C`, `-D`, written against the repaired tree, asked to "
         "look beyond the central function) round 3 (`-E`, `-F`, asked for subtle changes in rarely exercised paths) and round 4 (`-G`, `-H`, ten properties, asked to "
         "look at helpers, constructors, error and clean-up paths and state that survives between calls; written against the final "
-        "repaired tree). Applicable changes: %d, caught by the targeted check(s): %d.\n\n" % (n_app, n_det))
+        "repaired tree); round 5 (the next free letter per property, one change for each of the 20 properties, asked for changes that need a "
+        "particular multi-step history, boundary input, prior state or two cooperating edits). Applicable changes: %d, caught by the targeted check(s): %d.\n\n" % (n_app, n_det))
 txt = open("DESIGN.md").read()
 block = "<!-- SEEDED-TABLE-BEGIN -->\n" + head + "\n".join(rows) + "\n<!-- SEEDED-TABLE-END -->"
 if "<!-- SEEDED-TABLE-BEGIN -->" in txt:
